@@ -4,6 +4,8 @@ import (
 	"encoding/json"
 	"fmt"
 	"go/constant"
+	"go/token"
+	"go/types"
 	"sort"
 	"strings"
 
@@ -225,11 +227,450 @@ func (p *Program) staticFrameComplete(cfg *PropConfig, ld LoadSpec) []*Obligatio
 }
 
 func (p *Program) staticEntryPoints(cfg *PropConfig, ld LoadSpec) []*Obligation { return nil }
-func (p *Program) staticEffects(cfg *PropConfig, ld LoadSpec) []*Obligation    { return nil }
+
 
 func moduleShort(m string) string {
 	if i := strings.LastIndex(m, "/"); i >= 0 {
 		return m[i+1:]
 	}
 	return m
+}
+
+// ---------------------------------------------------------------------------------------
+// C11 effect contracts: every function of the consensus-relevant packages is "deterministic":
+//   effect:hostclock  - no value of the host clock / OS / process-global RNG reaches anything but a logger
+//   effect:maporder   - every range over a Go map is order-insensitive (sorted keys, or a commuting body without early exit)
+//   effect:globalwrite - no store to package-level variables outside init
+//   effect:float      - no fusable float multiply-add, no math function without bit-exact specification
+// Checked on the SSA of all non-test functions of the loaded packages (a superset of what entry points reach).
+
+type effectArgs struct {
+	Module string   `json:"module"`
+	Skip   []string `json:"skip_packages"` // package path suffixes not executed in consensus (client, simulation)
+	Allow  []struct {
+		Func   string `json:"func"`   // function key with module prefix, e.g. "service:keeper.Keeper.GetModuleServiceByServiceName"
+		Effect string `json:"effect"` // hostclock | maporder | globalwrite | float
+		Reason string `json:"reason"`
+	} `json:"allow"`
+}
+
+// math functions whose results are not required to be correctly rounded (IEEE 754 specifies + - * / sqrt only)
+var archFloatFuncs = map[string]bool{
+	"math.Log": true, "math.Log2": true, "math.Log10": true, "math.Log1p": true, "math.Exp": true, "math.Exp2": true, "math.Expm1": true,
+	"math.Pow": true, "math.Pow10": false, "math.Sin": true, "math.Cos": true, "math.Tan": true, "math.Asin": true, "math.Acos": true,
+	"math.Atan": true, "math.Atan2": true, "math.Sinh": true, "math.Cosh": true, "math.Tanh": true, "math.Cbrt": true, "math.Hypot": true,
+	"math.Gamma": true, "math.Lgamma": true, "math.Erf": true, "math.Erfc": true, "math.FMA": false,
+}
+
+func isFloat(t types.Type) bool {
+	b, ok := t.Underlying().(*types.Basic)
+	return ok && b.Info()&types.IsFloat != 0
+}
+
+var hostFuncs = map[string]bool{
+	"time.Now": true, "time.Since": true, "time.Until": true,
+	"os.Getenv": true, "os.Hostname": true, "os.Getpid": true, "os.Environ": true, "os.ReadFile": true, "os.Getwd": true,
+	"runtime.NumGoroutine": true, "runtime.NumCPU": true, "runtime.GOMAXPROCS": true,
+	"math/rand.Int": true, "math/rand.Intn": true, "math/rand.Int63": true, "math/rand.Int63n": true, "math/rand.Int31": true, "math/rand.Int31n": true,
+	"math/rand.Float64": true, "math/rand.Float32": true, "math/rand.Perm": true, "math/rand.Shuffle": true, "math/rand.Uint32": true, "math/rand.Uint64": true, "math/rand.Read": true,
+	"crypto/rand.Read": true, "crypto/rand.Int": true, "crypto/rand.Prime": true,
+}
+
+func isLoggerSink(c *ssa.CallCommon) bool {
+	name := ""
+	if c.IsInvoke() {
+		name = c.Method.Name()
+		recv := types.TypeString(c.Value.Type(), nil)
+		if strings.Contains(recv, "log.Logger") || strings.HasSuffix(recv, "Logger") {
+			return true
+		}
+	} else if fn := c.StaticCallee(); fn != nil {
+		name = fn.String()
+		if strings.Contains(name, "log.") || strings.Contains(name, "telemetry") {
+			return true
+		}
+	}
+	_ = name
+	return false
+}
+
+// hostValueEscapes: does the value v (derived from the host clock etc.) reach anything other than a logger?
+func hostValueEscapes(v ssa.Value, seen map[ssa.Value]bool, depth int) (bool, string) {
+	if seen[v] || depth > 12 {
+		return false, ""
+	}
+	seen[v] = true
+	refs := v.Referrers()
+	if refs == nil {
+		return false, ""
+	}
+	for _, r := range *refs {
+		switch in := r.(type) {
+		case *ssa.DebugRef:
+			continue
+		case *ssa.Call:
+			cc := in.Common()
+			if isLoggerSink(cc) {
+				continue
+			}
+			if fn := cc.StaticCallee(); fn != nil {
+				n := fn.String()
+				// time arithmetic / formatting keeps the taint
+				if strings.HasPrefix(n, "(time.Time).") || strings.HasPrefix(n, "(time.Duration).") || n == "time.Since" || strings.HasPrefix(n, "fmt.Sprint") {
+					if esc, why := hostValueEscapes(in, seen, depth+1); esc {
+						return true, why
+					}
+					continue
+				}
+			}
+			return true, "passed to " + callName(cc)
+		case *ssa.MakeInterface, *ssa.ChangeType, *ssa.Convert, *ssa.Phi, *ssa.Slice, *ssa.BinOp, *ssa.UnOp, *ssa.Extract, *ssa.Field, *ssa.FieldAddr, *ssa.IndexAddr:
+			if val, ok := r.(ssa.Value); ok {
+				if esc, why := hostValueEscapes(val, seen, depth+1); esc {
+					return true, why
+				}
+			}
+		case *ssa.Store:
+			// stored into a local (varargs array for a logger call etc.): follow the address
+			if a, ok := in.Addr.(ssa.Value); ok && in.Val == v {
+				if _, isG := a.(*ssa.Global); isG {
+					return true, "stored to a package-level variable"
+				}
+				if esc, why := hostValueEscapes(a, seen, depth+1); esc {
+					return true, why
+				}
+			}
+		case *ssa.If:
+			return true, "decides a branch"
+		case *ssa.Return:
+			return true, "returned"
+		default:
+			return true, fmt.Sprintf("used by %T", r)
+		}
+	}
+	return false, ""
+}
+
+func (p *Program) staticEffects(cfg *PropConfig, ld LoadSpec) []*Obligation {
+	var args effectArgs
+	if raw, ok := cfg.StaticArgs["effects"]; ok {
+		json.Unmarshal(raw, &args)
+	}
+	skip := func(fn *ssa.Function) bool {
+		root := fn
+		for root.Parent() != nil {
+			root = root.Parent()
+		}
+		if root.Pkg == nil {
+			return true
+		}
+		path := root.Pkg.Pkg.Path()
+		for _, sfx := range args.Skip {
+			if strings.HasSuffix(path, sfx) || strings.Contains(path, sfx+"/") {
+				return true
+			}
+		}
+		return false
+	}
+	x := &Exec{prog: p}
+	mod := moduleShort(ld.Module)
+	unit := mod + ":effects"
+	// globals initialised from the host clock etc.
+	taintedGlobals := map[*ssa.Global]string{}
+	for _, sp := range p.ssaPkgs {
+		init := sp.Func("init")
+		if init == nil {
+			continue
+		}
+		for _, b := range init.Blocks {
+			for _, ins := range b.Instrs {
+				st, ok := ins.(*ssa.Store)
+				if !ok {
+					continue
+				}
+				g, ok := st.Addr.(*ssa.Global)
+				if !ok {
+					continue
+				}
+				// value derived from a host call?
+				var derives func(v ssa.Value, d int) string
+				derives = func(v ssa.Value, d int) string {
+					if d > 6 {
+						return ""
+					}
+					if c, ok := v.(*ssa.Call); ok {
+						if fn := c.Call.StaticCallee(); fn != nil && hostFuncs[fn.String()] {
+							return fn.String()
+						}
+						for _, a := range c.Call.Args {
+							if w := derives(a, d+1); w != "" {
+								return w
+							}
+						}
+					}
+					if in, ok := v.(ssa.Instruction); ok {
+						for _, op := range in.Operands(nil) {
+							if *op != nil {
+								if w := derives(*op, d+1); w != "" {
+									return w
+								}
+							}
+						}
+					}
+					return ""
+				}
+				if w := derives(st.Val, 0); w != "" {
+					taintedGlobals[g] = w
+				}
+			}
+		}
+	}
+	var clock, maporder, gwrite, floats []string
+	nfun, nsites := 0, 0
+	for _, key := range sortedKeys(p.funcsByKey) {
+		fn := p.funcsByKey[key]
+		if fn.Blocks == nil || skip(fn) || fn.Name() == "init" {
+			continue
+		}
+		if strings.HasSuffix(x.pos(fn.Pos()), "_test.go") || strings.Contains(x.pos(fn.Pos()), "zz_verif") {
+			continue
+		}
+		fpos := x.pos(fn.Pos())
+		if len(fn.Blocks) > 0 && len(fn.Blocks[0].Instrs) > 0 && fpos == "?" {
+			for _, ins := range fn.Blocks[0].Instrs {
+				if ins.Pos().IsValid() {
+					fpos = x.pos(ins.Pos())
+					break
+				}
+			}
+		}
+		if strings.Contains(fpos, ".pb.go:") || strings.Contains(fpos, ".pb.gw.go:") {
+			continue // generated protobuf (binary encoding of genesis maps is not consensus data; JSON export sorts keys)
+		}
+		if strings.HasPrefix(fn.Name(), "init#") {
+			continue // package initialisers
+		}
+		allowed := map[string]string{}
+		for _, a := range args.Allow {
+			if a.Func == mod+":"+key {
+				allowed[a.Effect] = a.Reason
+			}
+		}
+		nfun++
+		loops, bodies := findLoops(fn)
+		_ = loops
+		for _, b := range fn.Blocks {
+			for _, ins := range b.Instrs {
+				switch in := ins.(type) {
+				case *ssa.BinOp:
+					// Go may fuse x*y + z into one FMA instruction on some architectures (spec: "Floating-point operators"),
+					// so a float product feeding a float sum is not bit-reproducible across replicas
+					if (in.Op == token.ADD || in.Op == token.SUB) && isFloat(in.Type()) && allowed["float"] == "" {
+						for _, opnd := range []ssa.Value{in.X, in.Y} {
+							if m, ok := opnd.(*ssa.BinOp); ok && m.Op == token.MUL && isFloat(m.Type()) {
+								nsites++
+								floats = append(floats, fmt.Sprintf("%s adds a floating-point product that the compiler may fuse (%s)", key, x.pos(in.Pos())))
+							}
+						}
+					}
+				case *ssa.Call:
+					if sc := in.Call.StaticCallee(); sc != nil && archFloatFuncs[sc.String()] {
+						nsites++
+						if allowed["float"] == "" {
+							floats = append(floats, fmt.Sprintf("%s calls %s, whose result is not specified bit-exactly (%s)", key, sc.String(), x.pos(in.Pos())))
+						}
+					}
+					if sc := in.Call.StaticCallee(); sc != nil && hostFuncs[sc.String()] {
+						nsites++
+						if esc, why := hostValueEscapes(in, map[ssa.Value]bool{}, 0); esc && allowed["hostclock"] == "" {
+							clock = append(clock, fmt.Sprintf("%s calls %s and the value is %s (%s)", key, sc.String(), why, x.pos(in.Pos())))
+						}
+					}
+				case *ssa.UnOp:
+					if g, ok := in.X.(*ssa.Global); ok && in.Op == token.MUL {
+						if w, bad := taintedGlobals[g]; bad {
+							nsites++
+							if esc, why := hostValueEscapes(in, map[ssa.Value]bool{}, 0); esc && allowed["hostclock"] == "" {
+								clock = append(clock, fmt.Sprintf("%s reads %s.%s, initialised from %s, and the value is %s (%s)", key, g.Pkg.Pkg.Name(), g.Name(), w, why, x.pos(in.Pos())))
+							}
+						}
+					}
+				case *ssa.Store:
+					if g, ok := in.Addr.(*ssa.Global); ok && allowed["globalwrite"] == "" {
+						nsites++
+						gwrite = append(gwrite, fmt.Sprintf("%s stores to package-level %s.%s (%s)", key, g.Pkg.Pkg.Name(), g.Name(), x.pos(in.Pos())))
+					}
+				case *ssa.Range:
+					if _, isMap := in.X.Type().Underlying().(*types.Map); isMap {
+						nsites++
+						if why := mapRangeOrderSensitive(fn, in, bodies); why != "" && allowed["maporder"] == "" {
+							maporder = append(maporder, fmt.Sprintf("%s ranges over a map and %s (%s)", key, why, x.pos(in.Pos())))
+						}
+					}
+				}
+			}
+		}
+	}
+	mk := func(label string, bad []string, okText string) *Obligation {
+		o := &Obligation{Unit: unit, Kind: "effect", Label: label, Goal: True, Src: okText}
+		if len(bad) > 0 {
+			sort.Strings(bad)
+			o.Goal = False
+			o.Src = strings.Join(bad, "; ")
+		}
+		return o
+	}
+	return []*Obligation{
+		mk("hostclock", clock, fmt.Sprintf("%d functions: no host clock / OS / global RNG value reaches anything but a logger", nfun)),
+		mk("maporder", maporder, fmt.Sprintf("%d functions: every range over a Go map is order-insensitive", nfun)),
+		mk("globalwrite", gwrite, fmt.Sprintf("%d functions: no store to package-level variables outside init", nfun)),
+		mk("float", floats, fmt.Sprintf("%d functions: no fusable floating-point multiply-add and no math function without a bit-exact specification", nfun)),
+	}
+}
+
+// benignEarlyReturn: a pure search that reports only an error (and constants).
+func benignEarlyReturn(body map[*ssa.BasicBlock]bool, ret *ssa.Return) bool {
+	for bb := range body {
+		for _, i2 := range bb.Instrs {
+			if ci, ok := i2.(ssa.CallInstruction); ok {
+				for _, a := range ci.Common().Args {
+					if isStateful(a.Type()) {
+						return false
+					}
+				}
+				if ci.Common().IsInvoke() && isStateful(ci.Common().Value.Type()) {
+					return false
+				}
+			}
+		}
+	}
+	for _, r := range ret.Results {
+		if _, isConst := r.(*ssa.Const); isConst {
+			continue
+		}
+		if types.Identical(r.Type(), types.Universe.Lookup("error").Type()) {
+			continue
+		}
+		return false
+	}
+	return true
+}
+
+// mapRangeOrderSensitive returns a reason when the loop over a map may behave differently for different iteration orders.
+func mapRangeOrderSensitive(fn *ssa.Function, rng *ssa.Range, bodies map[*ssa.BasicBlock]map[*ssa.BasicBlock]bool) string {
+	// the loop whose header contains the Next of this range
+	var header *ssa.BasicBlock
+	for h, set := range bodies {
+		for _, ins := range h.Instrs {
+			if nx, ok := ins.(*ssa.Next); ok && nx.Iter == rng {
+				header = h
+				_ = set
+			}
+		}
+	}
+	if header == nil {
+		return "the loop structure is not recognised"
+	}
+	body := bodies[header]
+	for b := range body {
+		for _, ins := range b.Instrs {
+			switch in := ins.(type) {
+			case *ssa.Return:
+				if !benignEarlyReturn(body, in) {
+					return "returns from inside the loop (what is returned, or how much work was done before, depends on the order)"
+				}
+			case *ssa.Call:
+				cc := in.Common()
+				if bi, ok := cc.Value.(*ssa.Builtin); ok {
+					if bi.Name() == "append" {
+						// appended slice must be sorted afterwards in this function
+						if !sortedLater(fn, in) {
+							return "appends to a slice that is not sorted afterwards"
+						}
+					}
+					continue
+				}
+			case *ssa.Panic:
+				return "may panic inside the loop"
+			}
+		}
+		// early exit: an edge from a body block (other than the header) to outside the loop
+		if b != header {
+			for _, s := range b.Succs {
+				if !body[s] {
+					// an exit into a block that (through straight-line code) returns: judge that return
+					cur := s
+					var ret *ssa.Return
+					for steps := 0; steps < 4 && cur != nil; steps++ {
+						if r, ok := cur.Instrs[len(cur.Instrs)-1].(*ssa.Return); ok {
+							ret = r
+							break
+						}
+						if len(cur.Succs) == 1 {
+							cur = cur.Succs[0]
+						} else {
+							cur = nil
+						}
+					}
+					if ret != nil && benignEarlyReturn(body, ret) {
+						continue
+					}
+					if ret != nil {
+						return "returns from inside the loop (what is returned, or how much work was done before, depends on the order)"
+					}
+					return "leaves the loop early (break) depending on an element"
+				}
+			}
+		}
+	}
+	return ""
+}
+
+// sortedLater: the result of this append (through phis / re-appends) is passed to a sort function in fn.
+func sortedLater(fn *ssa.Function, app *ssa.Call) bool {
+	seen := map[ssa.Value]bool{}
+	var follow func(v ssa.Value, d int) bool
+	follow = func(v ssa.Value, d int) bool {
+		if seen[v] || d > 10 {
+			return false
+		}
+		seen[v] = true
+		refs := v.Referrers()
+		if refs == nil {
+			return false
+		}
+		for _, r := range *refs {
+			switch in := r.(type) {
+			case *ssa.Call:
+				if sc := in.Call.StaticCallee(); sc != nil {
+					n := sc.String()
+					if strings.HasPrefix(n, "sort.") || strings.HasPrefix(n, "slices.Sort") || strings.Contains(n, ".Sort") || strings.Contains(n, "sortkeys.") {
+						return true
+					}
+				}
+				if bi, ok := in.Call.Value.(*ssa.Builtin); ok && bi.Name() == "append" {
+					if follow(in, d+1) {
+						return true
+					}
+				}
+			case *ssa.Phi, *ssa.ChangeType, *ssa.MakeInterface, *ssa.Convert:
+				if val, ok := r.(ssa.Value); ok && follow(val, d+1) {
+					return true
+				}
+			case *ssa.Store:
+				if a, ok := in.Addr.(ssa.Value); ok {
+					// stored in a local: look at loads of that local
+					if refs2 := a.Referrers(); refs2 != nil {
+						for _, r2 := range *refs2 {
+							if ld, ok := r2.(*ssa.UnOp); ok && follow(ld, d+1) {
+								return true
+							}
+						}
+					}
+				}
+			}
+		}
+		return false
+	}
+	return follow(app, 0)
 }
